@@ -361,6 +361,7 @@ func runC43(c *Ctx) {
 	c43ListenerBuilds(c)
 	c43NumberBases(c)
 	c43PrinterForms(c)
+	c43PortRangeMeaning(c)
 	kp := "gateway/pktcls."
 	c43Combinator(c, "("+kp+"CondAllOf).Eval", false, false)
 	c43Combinator(c, "("+kp+"CondAnyOf).Eval", true, true)
